@@ -21,6 +21,20 @@ Obs(ms) == Rep(ms) /\ nviol' = nviol + Cardinality(ms)
 Is(x, S) == x.k = "ok" /\ S_(x.v) = S
 B(c) == IF c THEN 1 ELSE 0
 
+\* the standard adaptors on an iterator whose plain iteration is `seq`: nth(n) and what follows it, the exact length after it
+\* (where promised), count, last, skip(n), step_by(n + 1).  Any deviation means iteration through the adaptor yields other items.
+AdBad(ad, seq, exact) ==
+  LET n == ad.n  L == Len(seq) IN
+  IF ad.k # "ok" THEN {"adaptor-panicked"} ELSE
+       IF_(ad.nth # (IF n < L THEN <<seq[n + 1]>> ELSE <<>>), {"nth"})
+  \cup IF_(ad.rest # SubSeq(seq, n + 2, L), {"items-after-nth"})
+  \cup IF_(exact /\ ad.len # (IF n < L THEN L - n - 1 ELSE 0), {"len-after-nth"})
+  \cup IF_(~ad.hint, {"size-hint-after-nth"})
+  \cup IF_(ad.count # L, {"count"})
+  \cup IF_(ad.last # (IF L = 0 THEN <<>> ELSE <<seq[L]>>), {"last"})
+  \cup IF_(ad.skip # SubSeq(seq, n + 1, L), {"skip"})
+  \cup IF_(ad.step # [k \in 1..((L + n) \div (n + 1)) |-> seq[1 + (k - 1) * (n + 1)]], {"step_by"})
+
 (* ------------------------------- BitBoard ------------------------------- *)
 TraceBBOp == /\ IsEvent("bb_op")
   /\ LET r == Recs[l]  A == S_(r.a)  Bb == S_(r.b)
@@ -46,14 +60,16 @@ TraceBBIter == /\ IsEvent("bb_iter")
             \cup IF_(r.k = "ok" /\ r.seq # BBIterSeq(A), {<<"C18", "iteration-order", r.a, r.seq>>})
             \cup IF_(r.k = "ok" /\ r.into # BBIterSeq(A), {<<"C18", "into-iter", r.a, r.into>>})
             \cup IF_(r.k = "ok" /\ (Len(r.lens) # n + 1 \/ \E i \in 1..Len(r.lens) : r.lens[i] # n + 1 - i), {<<"C18", "iteration-remaining-length", r.a, r.lens>>})
-            \cup IF_(r.k = "ok" /\ ~r.hints, {<<"C18", "iteration-size-hint", r.a>>}))
+            \cup IF_(r.k = "ok" /\ ~r.hints, {<<"C18", "iteration-size-hint", r.a>>})
+            \cup LET bad == AdBad(r.ad, BBIterSeq(A), TRUE) IN IF_(bad # {}, {<<"C18", "iteration-through-adaptor", bad, r.a, r.ad.n>>}))
 
 TraceBBSubsets == /\ IsEvent("bb_subsets")
   /\ LET r == Recs[l]  A == S_(r.a)  subs == [i \in 1..Len(r.subs) |-> S_(r.subs[i])]
      IN Obs(IF_(r.k # "ok", {<<"C18", "subsets-panicked", r.a>>})
             \cup IF_(r.k = "ok" /\ {subs[i] : i \in 1..Len(subs)} # SUBSET A, {<<"C18", "subsets-not-all-subsets", r.a, Len(subs)>>})
             \cup IF_(r.k = "ok" /\ Len(subs) # 2^Cardinality(A), {<<"C18", "subsets-count", r.a, Len(subs)>>})
-            \cup IF_(r.k = "ok" /\ \E i \in 1..(Len(subs)-1) : ~BBLess(subs[i], subs[i+1]), {<<"C18", "subsets-order", r.a>>}))
+            \cup IF_(r.k = "ok" /\ \E i \in 1..(Len(subs)-1) : ~BBLess(subs[i], subs[i+1]), {<<"C18", "subsets-order", r.a>>})
+            \cup LET bad == IF r.k = "ok" THEN AdBad(r.ad, r.subs, FALSE) ELSE {} IN IF_(bad # {}, {<<"C18", "subsets-through-adaptor", bad, r.a, r.ad.n>>}))
 
 \* Debug text, as code points: `{:#?}` draws the board (rank 8 first, files a..h, " X" / " ."), `{:?}` is BitBoard(0x................)
 RECURSIVE CatAll(_, _)
@@ -99,7 +115,8 @@ TracePM == /\ IsEvent("pm")
             \cup IF_(r.k = "ok" /\ r.empty # (n = 0), {<<"C17", "is_empty", r.piece, r.from, r.to, r.empty>>})
             \cup IF_(r.k = "ok" /\ (Len(r.lens) # n + 1 \/ \E i \in 1..Len(r.lens) : r.lens[i] # n + 1 - i), {<<"C17", "remaining-length", r.piece, r.from, r.to, r.lens>>})
             \cup IF_(r.k = "ok" /\ ~r.hints, {<<"C17", "size-hint", r.piece, r.from, r.to>>})
-            \cup IF_(S_(r.has) # S_(exp), {<<"C17", "has", r.piece, r.from, r.to, S_(r.has) \ S_(exp), S_(exp) \ S_(r.has)>>}))
+            \cup IF_(S_(r.has) # S_(exp), {<<"C17", "has", r.piece, r.from, r.to, S_(r.has) \ S_(exp), S_(exp) \ S_(r.has)>>})
+            \cup LET bad == IF r.k = "ok" THEN AdBad(r.ad, r.seq, TRUE) ELSE {} IN IF_(bad # {}, {<<"C17", "iteration-through-adaptor", bad, r.piece, r.from, r.to, r.ad.n>>}))
 
 (* ------------------------------ coordinates ------------------------------ *)
 TraceSq == /\ IsEvent("sq")
@@ -119,6 +136,11 @@ TraceOffs == /\ IsEvent("offs")
      IN Obs(IF_(Len(r.panics) # 0, {<<"C19", "try_offset-panicked", s, Len(r.panics), r.panics[1]>>})
             \cup IF_(got # exp, {<<"C19", "try_offset", s, got \ exp, exp \ got>>})
             \cup IF_(r.tried # Cardinality(R) * Cardinality(R), {<<"C19", "offset-sweep-incomplete", s>>})
+            \* the panicking variant: the square plain coordinate arithmetic gives; where that leaves the board no square is an
+            \* answer that agrees with the arithmetic, so it has to panic (-1), as documented
+            \cup LET expo == {<<df, dr, IF FileOf(s) + df \in 0..7 /\ RankOf(s) + dr \in 0..7 THEN SqOf(FileOf(s) + df, RankOf(s) + dr) ELSE -1>> :
+                                df \in -7..7, dr \in -7..7}
+               IN IF_(S_(r.off) # expo, {<<"C19", "offset", s, S_(r.off) \ expo>>})
             \cup IF_(Len(r.offset_bad) # 0, {<<"EXT", "offset-vs-try_offset", s, r.offset_bad>>}))
 TraceFR == /\ IsEvent("fr")
   /\ LET r == Recs[l]
